@@ -83,11 +83,11 @@ pub open spec fn strs(v: Seq<String>) -> Seq<Seq<char>> { v.map_values(|s: Strin
 //@ sub "s.to_owned()" => "verif_string_of(s)" count=*
 //@ spec
     ensures
-        valid_utf8(s@) ==> (r matches Some(t) && t@ == utf8_decode(s@) && *final(bin_attr_vals) == *old(bin_attr_vals) && *final(any_binary) == *old(any_binary)), //# C15.a_valid_utf8_value_is_kept_as_text_unchanged
+        valid_utf8(s@) ==> (r matches Some(t) && t@ == utf8_decode(s@) && *final(bin_attr_vals) == *old(bin_attr_vals) && *final(any_binary) == *old(any_binary)), //# C15+C19.a_valid_utf8_value_is_kept_as_text_unchanged
         !valid_utf8(s@) ==> (r is None && *final(any_binary)
             && final(bin_attr_vals).m@.dom() == old(bin_attr_vals).m@.dom().insert(a_type@)
             && bin_at(final(bin_attr_vals).m@, a_type@) == bin_at(old(bin_attr_vals).m@, a_type@).push(s@)
-            && (forall|k: Seq<char>| k != a_type@ && old(bin_attr_vals).m@.contains_key(k) ==> final(bin_attr_vals).m@[k] == old(bin_attr_vals).m@[k])), //# C15.an_invalid_value_goes_to_the_binary_map_under_its_attribute_unaltered
+            && (forall|k: Seq<char>| k != a_type@ && old(bin_attr_vals).m@.contains_key(k) ==> final(bin_attr_vals).m@[k] == old(bin_attr_vals).m@[k])), //# C15+C19.an_invalid_value_goes_to_the_binary_map_under_its_attribute_unaltered
 //@end
 
 
@@ -226,7 +226,7 @@ pub proof fn lemma_bin_vals_grow(v: Seq<Seq<u8>>, n: nat, m: nat)
 pub proof fn theorem_all_text_keeps_every_value_in_order(v: Seq<Seq<u8>>, n: nat)
     requires n <= v.len(), bin_vals(v, n).len() == 0
     ensures text_vals(v, n).len() == n, forall|j: int| 0 <= j < n ==> valid_utf8(#[trigger] v[j]),
-        forall|j: int| 0 <= j < n ==> #[trigger] text_vals(v, n)[j] == utf8_decode(v[j]) //# C15.theorem_a_text_attribute_keeps_every_value_in_order
+        forall|j: int| 0 <= j < n ==> #[trigger] text_vals(v, n)[j] == utf8_decode(v[j]) //# C15+C19.theorem_a_text_attribute_keeps_every_value_in_order
     decreases n
 {
     if n > 0 {
@@ -247,7 +247,7 @@ pub proof fn theorem_all_text_keeps_every_value_in_order(v: Seq<Seq<u8>>, n: nat
 // duplicated or altered
 pub proof fn theorem_binary_attribute_holds_the_multiset_of_its_values(v: Seq<Seq<u8>>, n: nat)
     requires n <= v.len()
-    ensures (bin_vals(v, n) + encs(text_vals(v, n))).to_multiset() =~= v.take(n as int).to_multiset() //# C15.theorem_a_binary_attribute_holds_exactly_the_multiset_of_its_values
+    ensures (bin_vals(v, n) + encs(text_vals(v, n))).to_multiset() =~= v.take(n as int).to_multiset() //# C15+C19.theorem_a_binary_attribute_holds_exactly_the_multiset_of_its_values
     decreases n
 {
     broadcast use axiom_utf8_encode_decode;
@@ -287,7 +287,7 @@ pub proof fn theorem_each_attribute_is_in_exactly_one_map(attrs: Seq<StructureTa
         let m = entry_fold(attrs, n); let t = attr_type(attrs[i]); let v = attr_values(attrs[i]);
         &&& all_text(v) ==> (m.text.contains_key(t) && m.text[t] == text_vals(v, v.len()) && !m.bin.contains_key(t))
         &&& !all_text(v) ==> (m.bin.contains_key(t) && m.bin[t] == bin_vals(v, v.len()) + encs(text_vals(v, v.len())) && !m.text.contains_key(t))
-    }) //# C15.theorem_every_attribute_is_in_exactly_one_map_text_iff_all_values_are_utf8
+    }) //# C15+C19.theorem_every_attribute_is_in_exactly_one_map_text_iff_all_values_are_utf8
     decreases n
 {
     let t = attr_type(attrs[i]);
@@ -319,7 +319,7 @@ pub proof fn theorem_each_attribute_is_in_exactly_one_map(attrs: Seq<StructureTa
             invariant
                 it.seq() == entry_attrs(re.0), forall|i: int| 0 <= i < it.seq().len() ==> wf_attr(#[trigger] it.seq()[i]),
                 text_view(attr_vals.m@) =~= entry_fold(it.seq(), it.index@ as nat).text,
-                bin_view(bin_attr_vals.m@) =~= entry_fold(it.seq(), it.index@ as nat).bin, //# C15.inv_the_two_maps_hold_the_attributes_read_so_far
+                bin_view(bin_attr_vals.m@) =~= entry_fold(it.seq(), it.index@ as nat).bin, //# C15+C19.inv_the_two_maps_hold_the_attributes_read_so_far
 //@ insert after ".collect::<Vec<String>>();"
             let ghost vals0 = values@;
             let ghost bin1 = bin_attr_vals.m@;
@@ -338,27 +338,27 @@ pub proof fn theorem_each_attribute_is_in_exactly_one_map(attrs: Seq<StructureTa
                 let m1 = entry_fold(it.seq(), (idx + 1) as nat);
                 assert(bin_of(m0.bin, t) == bin_at(bin0, t));
                 if all_text(v) {
-                    assert(text_view(attr_vals.m@) =~= m1.text); //# C15.an_all_utf8_attribute_goes_to_the_text_map_with_all_its_values_in_order
-                    assert(bin_view(bin_attr_vals.m@) =~= m1.bin); //# C15.an_all_utf8_attribute_leaves_the_binary_map_alone
+                    assert(text_view(attr_vals.m@) =~= m1.text); //# C15+C19.an_all_utf8_attribute_goes_to_the_text_map_with_all_its_values_in_order
+                    assert(bin_view(bin_attr_vals.m@) =~= m1.bin); //# C15+C19.an_all_utf8_attribute_leaves_the_binary_map_alone
                 } else {
-                    assert(text_view(attr_vals.m@) =~= m1.text); //# C15.a_mixed_or_binary_attribute_leaves_the_text_map_alone
+                    assert(text_view(attr_vals.m@) =~= m1.text); //# C15+C19.a_mixed_or_binary_attribute_leaves_the_text_map_alone
                     assert(strs(vals0) == text_vals(v, v.len()));
                     assert(bin_at(bin1, t) == bin_at(bin0, t) + bin_vals(v, v.len()));
-                    assert(bin_attr_vals.m@.dom() =~= bin1.dom()); //# C15.the_valid_values_of_a_mixed_attribute_are_appended_to_its_binary_values_re_encoded
+                    assert(bin_attr_vals.m@.dom() =~= bin1.dom()); //# C15+C19.the_valid_values_of_a_mixed_attribute_are_appended_to_its_binary_values_re_encoded
                     let nv = bin_attr_vals.m@[t]@;
-                    assert(nv.len() == bin1[t]@.len() + vals0.len()); //# C15.the_valid_values_of_a_mixed_attribute_are_appended_to_its_binary_values_re_encoded
-                    assert(forall|i: int| 0 <= i < bin1[t]@.len() ==> nv[i] == bin1[t]@[i]); //# C15.the_valid_values_of_a_mixed_attribute_are_appended_to_its_binary_values_re_encoded
-                    assert(forall|i: int| 0 <= i < vals0.len() ==> nv[bin1[t]@.len() + i]@ == utf8_encode(vals0[i]@)); //# C15.the_valid_values_of_a_mixed_attribute_are_appended_to_its_binary_values_re_encoded
-                    assert(deep(nv) =~= deep(bin1[t]@) + encs(strs(vals0))); //# C15.the_valid_values_of_a_mixed_attribute_are_appended_to_its_binary_values_re_encoded
-                    assert(bin_view(bin_attr_vals.m@) =~= m1.bin); //# C15.a_mixed_or_binary_attribute_has_all_its_values_in_the_binary_map
+                    assert(nv.len() == bin1[t]@.len() + vals0.len()); //# C15+C19.the_valid_values_of_a_mixed_attribute_are_appended_to_its_binary_values_re_encoded
+                    assert(forall|i: int| 0 <= i < bin1[t]@.len() ==> nv[i] == bin1[t]@[i]); //# C15+C19.the_valid_values_of_a_mixed_attribute_are_appended_to_its_binary_values_re_encoded
+                    assert(forall|i: int| 0 <= i < vals0.len() ==> nv[bin1[t]@.len() + i]@ == utf8_encode(vals0[i]@)); //# C15+C19.the_valid_values_of_a_mixed_attribute_are_appended_to_its_binary_values_re_encoded
+                    assert(deep(nv) =~= deep(bin1[t]@) + encs(strs(vals0))); //# C15+C19.the_valid_values_of_a_mixed_attribute_are_appended_to_its_binary_values_re_encoded
+                    assert(bin_view(bin_attr_vals.m@) =~= m1.bin); //# C15+C19.a_mixed_or_binary_attribute_has_all_its_values_in_the_binary_map
                 }
             }
 //@ spec
     requires wf_entry(re.0),
     ensures
         r.dn@ == utf8_decode(entry_dn(re.0)), //# C15.the_dn_is_the_servers
-        text_view(r.attrs.m@) =~= entry_fold(entry_attrs(re.0), entry_attrs(re.0).len()).text, //# C15.text_map_holds_exactly_the_all_utf8_attributes_values_in_order
-        bin_view(r.bin_attrs.m@) =~= entry_fold(entry_attrs(re.0), entry_attrs(re.0).len()).bin, //# C15.binary_map_holds_every_value_of_the_other_attributes
+        text_view(r.attrs.m@) =~= entry_fold(entry_attrs(re.0), entry_attrs(re.0).len()).text, //# C15+C19.text_map_holds_exactly_the_all_utf8_attributes_values_in_order
+        bin_view(r.bin_attrs.m@) =~= entry_fold(entry_attrs(re.0), entry_attrs(re.0).len()).bin, //# C15+C19.binary_map_holds_every_value_of_the_other_attributes
 //@end
 
 // ---- Pre/PostRead response control (RFC 4527): the control value is a SearchResultEntry; ReadEntryResp::parse is
